@@ -21,7 +21,7 @@ fn main() {
         let v: serde_json::Value =
             serde_json::from_str(&std::fs::read_to_string(&args[3]).expect("replay file")).expect("json");
         match id {
-            "C01" | "C02" | "C04" | "C05" | "C08" => mc::checks::wscheck::replay(&v["case"]),
+            "C01" | "C02" | "C04" | "C05" | "C08" | "C16" => mc::checks::wscheck::replay(&v["case"]),
             "C06" => mc::checks::c06::replay(&v["case"]),
             _ => {
                 eprintln!("no replay for {}", id);
@@ -37,6 +37,7 @@ fn main() {
         "C04" => mc::checks::c04::run(rep),
         "C05" => mc::checks::c05::run(rep),
         "C06" => mc::checks::c06::run(rep),
+        "C16" => mc::checks::c16::run(rep),
         _ => {
             eprintln!("unknown check {}", id);
             std::process::exit(2)
